@@ -148,6 +148,7 @@ PROPS.update({
     },
     "C09": {
         "coq": "Properties/C09.v",
+        "coq_extra": ["Properties/C09text.v", "Properties/C16q.v"],
         "pinchecks": ENGINE_PINS,
         "gen": "c09",
         "level_text": "Coq theorems: AdapterSync (MemoryAdapter lines = in-memory policy, rule for rule, same order) holds after construction and is preserved by "
@@ -314,6 +315,7 @@ PROPS.update({
 PROPS.update({
     "C16": {
         "coq": "Properties/C16.v",
+        "coq_extra": ["Properties/C16q.v", "Properties/C09text.v"],
         "pinchecks": ["PinChecks/PcBody_util.v", "PinChecks/PcBody_model.v", "PinChecks/PcBody_adapters.v", "PinChecks/PcLiterals.v"],
         "gen": "c16",
         "level_text": "Coq theorems at BYTE level over Model/Csv.v and Model/Ini.v (validated against the real functions through the cfg(casbin_verif) hooks): "
@@ -328,7 +330,8 @@ PROPS.update({
         "level_note": "trusted: Coq kernel, extraction, harness, the guarded hook re-exports; modelled not verified: the regex crate's find_iter on ESC_C / ESC_A "
                       "(restated as deterministic scanners), Unicode white space beyond ASCII is outside the byte-level model",
         "explanation": "theorems c16_* and c09_* (text); policy lines x layouts, model texts x layouts, to_text round trip, noise / mutated texts",
-        "assumptions": ["values are csv-safe (non-empty, no double quote, no line break, no leading/trailing white space; commas allowed via quoting)",
+        "assumptions": ["values are csv-safe (non-empty, no double quote, no line break; leading/trailing white space only for values written in quotes, "
+                        "i.e. containing a comma or quoted by the layout: classes csv_safe / csv_safe_r / col_ok, Properties/C16q.v)",
                         "layout grammar excludes a comment or blank line inside a continuation (D21) and breaks inside lexemes / string literals"],
     },
 })
